@@ -95,6 +95,13 @@ CHECKS = {
    note="A scope without its own default service falls back to the App's default service, as documented on Scope::default_service (intermediate scopes' defaults are not inherited); the model follows the documentation. match_pattern/match_name are not compared here. Middleware-level rewriting (NormalizePath) and external resources / url_for are not covered.",
    technique="model-based differential property testing: generated route-table ASTs built into the real App and into a reference router; requests derived from the table's own grammar",
    design_ref="DESIGN.md §5 C09"),
+ "C08": dict(
+   engine="h2sim",
+   category="exploration",
+   text="The real HttpService is driven with Protocol::Http2 over an in-memory duplex pipe by an h2 client whose flow control is scripted: initial stream window 1/100/16384/65535/1 MiB/random, connection window 1-4 MiB, received capacity released eagerly / in steps of 1..20000 bytes with 0-20 ms virtual delays / never (starved stream) / stream reset by the client after k bytes; 1-4 concurrent streams (GET/HEAD/POST). Handlers are interpreted programs: status 200/204/206/304/404, body Empty / Bytes / BodyStream / SizedStream / custom MessageBody with chunks of 0..120000 bytes (empty chunks, chunks larger than the window) and self-waking Pending patterns, hop-by-hop headers set by the user, handler delays. Oracle per stream: DATA bytes equal the body program's bytes in order; content-length, when sent, equals that length (the would-be length for HEAD); no DATA for HEAD / 204 / 304 / empty bodies; none of connection, keep-alive, transfer-encoding, upgrade, proxy-connection is sent; END_STREAM arrives within a virtual minute unless the client itself starves the stream; bytes received before a client reset are a prefix of the body; each response carries its own stream's marker; a starved or reset stream never prevents another stream from completing. 6*10^3 (quick) to 1.2*10^5 (thorough) connections.",
+   note="h2 (the crate) is on both sides: frame-level behaviour of the client half is trusted. Request bodies over HTTP/2 (h2::Payload release_capacity) and h2 keep-alive pings are not explored. The connection window is kept large so that starvation of one stream is never a legitimate reason for another to wait.",
+   technique="property-based testing over generated flow-control schedules against interpreted handler programs (ground truth by construction), virtual-time deadline as hang detector",
+   design_ref="DESIGN.md §5 C08"),
  "C01": dict(
    engine="simnet",
    category="exploration",
@@ -148,9 +155,10 @@ def main():
             "add_only": True,
         },
         "engines": [
-            {"name": "pbt", "path": "harness/src/runner.rs", "serves_properties": ["C07","C10","C14","C18"], "kind_free_text": "parallel seeded proptest runner with shrinking, replay files, class histograms, known-findings exclusion; also enumerators for small finite spaces"},
+            {"name": "pbt", "path": "harness/src/runner.rs", "serves_properties": ["C07","C09","C10","C14","C18"], "kind_free_text": "parallel seeded proptest runner with shrinking, replay files, class histograms, known-findings exclusion; also enumerators for small finite spaces"},
+            {"name": "h2sim", "path": "harness/src/props/c08.rs", "serves_properties": ["C08"], "kind_free_text": "h2 client with scripted windows / capacity release / resets over tokio::io::duplex against HttpService with Protocol::Http2, paused clock"},
             {"name": "streams", "path": "harness/src/streams.rs", "serves_properties": ["C12","C13","C15"], "kind_free_text": "scripted chunk streams (generated cuts, self-waking Pending patterns, EOF or transport error, pull accounting) consumed on a paused current-thread tokio runtime under a virtual deadline (hang detector)"},
-            {"name": "simnet", "path": "harness/src/simnet.rs", "serves_properties": ["C01","C02","C03","C04","C05","C06","C11","C19"], "kind_free_text": "scripted in-memory socket + paused tokio clock + interpreted handler programs driving the real HttpService/h1 dispatcher"},
+            {"name": "simnet", "path": "harness/src/simnet.rs", "serves_properties": ["C01","C02","C03","C04","C05","C06","C11","C13","C19"], "kind_free_text": "scripted in-memory socket + paused tokio clock + interpreted handler programs driving the real HttpService/h1 dispatcher"},
         ],
         "checks": checks,
         "not_applicable": na,
